@@ -231,6 +231,79 @@ def byteset_rule(ctx, r):
                   "in non_matching_bytes are then promised never to occur in a match although they do)"
                   % (nm, one, "removed" if one == "remove" else "added"), fn=f, construct="byteset")
 
+
+def engine_rule(ctx, r):
+    """Line anchors compiled by the engine look at one byte (default `\\n`). The searcher hands out lines cut at the configured
+    terminator; the printers re-search a line *inside* its buffer. Unless the engine is given the same byte, `^a` under
+    --null-data matches a record only where it happens to start a haystack: -c counts the record, --count-matches / -o / JSON
+    submatches find nothing in it."""
+    facts = ctx.facts
+    f = facts.fn(R + "::config::ConfiguredHIR::to_regex")
+    eb = ExprBuilder(f)
+    lt = [c for c in f.calls() if c.path.endswith("meta::regex::Config::line_terminator")]
+    if lt and any(x.k == "field" and x[3] == "line_terminator" for x in walk(eb.operand(lt[0].args[1]))):
+        r.ok("engine|line_terminator", "meta::Config::line_terminator(config.line_terminator …)", fn=f)
+    else:
+        r.bad("engine|line_terminator", "ConfiguredHIR::to_regex builds the regex without the configured line terminator: its line "
+              "anchors stay tied to `\\n` while the searcher's lines end at the configured byte (NUL with --null-data), so a "
+              "line matches or not depending on whether it is searched alone or inside its buffer", fn=f, construct="to_regex")
+
+
+def anchor_tests(facts, fn, eb):
+    """Boolean switches of `fn` that decide "the pattern's anchors rule out the terminator promise", normalised so that the
+    first edge is the withholding one. The test is either LookSet::contains_anchor_haystack() itself or a bool method of
+    ConfiguredHIR that answers a constant under haystack anchors (a helper shared by line_terminator / non_matching_bytes).
+    Returns (switches, the expressions in which the look set is consulted)."""
+    HAY = "LookSet::contains_anchor_haystack"
+    out, exprs = [], []
+    for bb, te, fe, e in cond_switches(fn, lambda e: e.k == "call" and e[1].endswith(HAY), eb):
+        out.append((bb, te, fe, e))
+        exprs.append(e)
+    for bb, te, fe, e in cond_switches(fn, lambda e: e.k == "call" and e[1].startswith(R + "::config::ConfiguredHIR::") and e[1] in facts.fns, eb):
+        g = facts.fns[e[1]]
+        ebg = ExprBuilder(g)
+        sw = cond_switches(g, lambda e2: e2.k == "call" and e2[1].endswith(HAY), ebg)
+        if not sw or g.local_ty(0) != "bool":
+            continue
+        s1 = Sccp(g).run([(sw[0][1][1], {})])
+        vals = {x for v in s1.ret_values.values() for x in value_set(v)}
+        if vals == {I(0)}:
+            out.append((bb, fe, te, e))
+        elif vals == {I(1)}:
+            out.append((bb, te, fe, e))
+        else:
+            continue
+        exprs += [x[3] for x in sw]
+    return out, exprs
+
+
+def multiline_anchor_rule(ctx, r):
+    """The searcher drops from the multi-line strategy to the line strategies when its terminator is among the matcher's
+    non-matching bytes. With no terminator configured on the regex (multi-line search) the line anchors mean `\\n`; cutting
+    the input at another byte gives `^` a new place to match wherever a buffer happens to begin, so the answer depends on the
+    strategy and on read sizes. Necessary: with line anchors and no configured terminator, no byte other than `\\n` stays
+    advertised. (Shared by C02.GATE and C11.GATE.)"""
+    facts = ctx.facts
+    nb = facts.fn(R + "::config::ConfiguredHIR::non_matching_bytes")
+    ebn = ExprBuilder(nb)
+    line_sw = cond_switches(nb, lambda e: e.k == "call" and e[1].split("::")[-1] in ("contains_anchor_line", "contains_anchor") and
+                            any(x.k == "call" and x[1].endswith("Properties::look_set") for x in walk(e)), ebn)
+    none_sw = cond_switches(nb, lambda e: e.k == "call" and e[1].endswith("Option::is_none") and
+                            any(x.k == "field" and x[3] == "line_terminator" for x in walk(e)), ebn)
+    rem = [c for c in nb.calls() if c.path.endswith("ByteSet::remove") and
+           not mentions_call(ebn.operand(c.args[1]), "grep_matcher::LineTerminator::as_bytes", "grep_matcher::LineTerminator::as_byte")]
+    # the removal loop runs over bytes and spares only \n
+    spare = cond_switches(nb, lambda e: e.k == "bin" and e[1] in ("Ne", "Eq") and any(y.k == "const" and y[1] == 10 for y in (e[2], e[3])), ebn)
+    ok_ = bool(line_sw and none_sw and rem and spare) and \
+        not guarded(nb, [c.bb for c in rem], line_sw, True) and not guarded(nb, [c.bb for c in rem], none_sw, True)
+    if ok_:
+        r.ok("anchors|multiline", "no terminator configured ∧ line anchors ⇒ only \\n may stay in non_matching_bytes()", fn=nb)
+    else:
+        r.bad("anchors|multiline", "with no terminator configured (multi-line search) and line anchors in the pattern, "
+              "non_matching_bytes() still advertises other bytes: under -U --null-data the searcher then cuts its input at NUL and "
+              "searches buffer by buffer, and `^a` matches a record only if a buffer happens to begin there (--mmap and --no-mmap "
+              "disagree)", fn=nb, construct="anchors")
+
 def run(ctx):
     facts = ctx.facts
     with ctx.rule("C11.ARMS", "HirKind walkers: explicit arm per variant, recursion into all children, leaves handled", floor=28,
@@ -366,6 +439,15 @@ def run(ctx):
                 par, sites = fn_, [c.bb for c in cs_]
             swp = cond_switches(par, lambda e: is_call(e, "grep_matcher::LineTerminator::is_crlf"), ExprBuilder(par))
             key = "asbyte|" + fn_.path.split("::", 1)[1]
+            # table exception, one reason: the byte handed to the engine as *its* line terminator (meta::Config::
+            # line_terminator) is what LF anchors look at; under CRLF the translator emits CRLF anchors, which do not consult
+            # it, and `\n` is the right byte for an explicit `(?-R)` anchor. Nothing is rejected or stripped with it.
+            ebp = ExprBuilder(par)
+            eng = [c for c in par.calls() if c.path.endswith("meta::regex::Config::line_terminator")]
+            if eng and fn_.kind == "closure" and any(x.k == "closure" and x[1] == fn_.path for x in walk(ebp.operand(eng[0].args[1]))) and \
+                    len(cs_) == 1:
+                r.ok(key, "as_byte() only names the engine's LF-anchor byte (C11.ENGINE)", fn=fn_, nontrivial=False)
+                continue
             if sites and swp and not guarded(par, sites, swp, False):
                 r.ok(key, "as_byte() consulted only on the !is_crlf() edge", fn=fn_)
             else:
@@ -417,6 +499,36 @@ def run(ctx):
         else:
             r.bad("gate|consulted", "is_fixed_strings no longer checks literals for the line terminator", fn=isf)
 
+    with ctx.rule("C11.ENGINE", "the regex engine is told the configured line terminator, so `^` / `$` mean the searcher's lines "
+                  "(shared with C10.ANCHORS)", floor=1, kind="WIRE") as r:
+        engine_rule(ctx, r)
+    with ctx.rule("C11.BAN", "a pattern that can only match with the banned byte (NUL under binary detection) is rejected on every "
+                  "route that builds the expression, the literal shortcut included", floor=1, kind="PASS") as r:
+        f = facts.fn(R + "::config::ConfiguredHIR::new")
+        eb = ExprBuilder(f)
+        chk = f.calls_to(R + "::ban::check")
+        oks = [bb for bb, j, st in f.stmts() if st["k"] == "assign" and st["rv"]["k"] == "agg" and st["rv"].get("adt") == R + "::config::ConfiguredHIR"]
+        from ..flow import discr_switch_edges
+        bansw = discr_switch_edges(f, lambda e: any(x.k == "field" and x[3] == "ban" for x in walk(e)), eb)
+        if not chk or not oks or not bansw:
+            r.bad("ban|routes", "anchor-missing: ban::check / config.ban test / ConfiguredHIR construction in ConfiguredHIR::new", fn=f)
+        else:
+            removed = set()
+            for bb, arms, ow, e, missing in bansw:
+                if "None" in arms:
+                    removed.add(arms["None"])
+                elif "Some" in arms:
+                    removed.add(ow)
+            left = C.all_paths_pass(f, [0], [c.bb for c in chk], oks, removed_edges=removed)
+            # a check guarded by `Some(byte) = config.ban` on one route only: the other route reaches the result with no such test
+            # at all, so removing the None edges leaves it reachable
+            if left:
+                r.bad("ban|routes", "ConfiguredHIR::new can build its expression without ban::check although a byte is banned: the "
+                      "hand-built alternation of literals (patterns without meta characters, or -F) skips it, so `rg -f pats` with "
+                      "a NUL inside a plain pattern is accepted and silently never matches where the same pattern written as a "
+                      "regex is rejected", fn=f, loc=chk[0].loc, construct="ban")
+            else:
+                r.ok("ban|routes", "config.ban = Some(b) ⇒ every route passes ban::check before the expression is returned", fn=f)
     with ctx.rule("C11.BYTESET", "ByteSet: add / remove / contains address the same bucket and bit of a byte; the range forms are the "
                   "per-byte ones", floor=5, kind="PARITY") as r:
         byteset_rule(ctx, r)
@@ -551,7 +663,7 @@ def gate_rule(ctx, r):
         r.bad("one_regex", "one_regex builds a candidate regex from an empty/infinite sequence", fn=g, construct="one_regex")
     h = facts.fn(R + "::config::ConfiguredHIR::line_terminator")
     ebh = ExprBuilder(h)
-    an = cond_switches(h, lambda e: e.k == "call" and e[1].endswith("LookSet::contains_anchor_haystack"), ebh)
+    an, an_exprs = anchor_tests(facts, h, ebh)
     if an:
         s1 = Sccp(h).run([(an[0][1][1], {})])
         v1 = {x for v in s1.ret_values.values() for x in value_set(v)}
@@ -563,7 +675,7 @@ def gate_rule(ctx, r):
         whole = all(any(x.k == "call" and x[1].endswith("Properties::look_set") for x in walk(e)) and
                     not any(x.k == "call" and x[1].split("::")[-1] in ("look_set_prefix", "look_set_suffix", "look_set_prefix_any",
                                                                        "look_set_suffix_any") for x in walk(e))
-                    for bb, te, fe, e in an)
+                    for e in an_exprs)
         if not whole:
             r.bad("anchors", "ConfiguredHIR::line_terminator looks for haystack anchors in a partial look set (prefix/suffix), not "
                   "in Properties::look_set(): \\A or \\z inside one alternation branch keeps the terminator promise and the fast "
@@ -574,12 +686,62 @@ def gate_rule(ctx, r):
             r.bad("anchors", "ConfiguredHIR::line_terminator promises a terminator despite haystack anchors", fn=h, construct="anchors")
     else:
         r.bad("anchors", "the terminator promise no longer depends on haystack anchors", fn=h, construct="anchors")
+    # line anchors of the *other* kind (an inline (?R) without CRLF mode, (?-R) with it) see a \\r at the end of a line
+    # differently from the line splitter: the promise must be withheld for them too. 16-row table over
+    # (haystack anchors, LF anchors, CRLF anchors, config.crlf) of whichever function holds the test.
+    import itertools as _it
+    T = h
+    helper_true_is_agree = None
+    for bb, te, fe, e in cond_switches(h, lambda e: e.k == "call" and e[1].startswith(R + "::config::ConfiguredHIR::") and e[1] in facts.fns, ebh):
+        T = facts.fns[e[1]]
+    ebT = ExprBuilder(T)
+    crlf_sw = cond_switches(T, lambda e: any(x.k == "field" and x[3] == "crlf" and x[2] == R + "::config::Config" for x in walk(e)) and
+                            not any(x.k == "call" for x in walk(e)), ebT)
+    wrong = []
+    for hay, lf, ca, cfg in _it.product([0, 1], repeat=4):
+        def model(call, argv, hay=hay, lf=lf, ca=ca):
+            nm = call.path.rsplit("::", 1)[1]
+            if call.path.endswith("LookSet::contains_anchor_haystack"):
+                return I(hay)
+            if call.path.endswith("LookSet::contains_anchor_lf"):
+                return I(lf)
+            if call.path.endswith("LookSet::contains_anchor_crlf"):
+                return I(ca)
+            if call.path.endswith("LookSet::contains_anchor_line"):
+                return I(lf | ca)
+            if call.path.endswith("LookSet::contains_anchor"):
+                return I(hay | lf | ca)
+            return None
+        removed = {(x[2] if cfg else x[1]) for x in crlf_sw}
+        sx = Sccp(T, call_model=model, removed_edges=removed).run([(0, {})])
+        vals = {x for v in sx.ret_values.values() for x in value_set(v)}
+        want_withheld = bool(hay or (lf if cfg else ca))
+        if T is h:
+            withheld = vals == {V("None", None)}
+            kept = bool(vals) and V("None", None) not in vals      # the configured value itself is not a constant
+        else:
+            # the helper answers a bool; its polarity was settled by the haystack test above
+            s_h = Sccp(T, call_model=lambda c, a: I(1) if c.path.endswith("LookSet::contains_anchor_haystack") else None).run([(0, {})])
+            hv = {x for v in s_h.ret_values.values() for x in value_set(v)}
+            disagree_val = 0 if hv == {I(0)} else 1
+            withheld = vals == {I(disagree_val)}
+            kept = vals == {I(1 - disagree_val)}
+        if (want_withheld and not withheld) or (not want_withheld and not kept):
+            wrong.append("haystack=%d lf=%d crlf-anchors=%d config.crlf=%d ⇒ %s" % (hay, lf, ca, cfg, sorted(map(str, vals))))
+    if wrong:
+        r.bad("anchors|kind", "%s keeps the terminator promise for line anchors that disagree with the configured terminator "
+              "(%s; %d of 16 rows): `(?R)\\s$` without --crlf or `a(?-R)$` with it match a line searched alone but not inside its "
+              "buffer, and the fast line path passes over it" % (T.path.split("::")[-1], wrong[0], len(wrong)), fn=T, construct="anchors")
+    else:
+        r.ok("anchors|kind", "withheld ⇔ haystack anchors ∨ (crlf ? LF anchors : CRLF anchors) (16 rows)", fn=T)
+    multiline_anchor_rule(ctx, r)
     # the sibling accessor: when the terminator promise is withheld, the terminator must not come back through
     # non_matching_bytes() — the searcher admits its fast line path on either of the two answers
     nb = facts.fn(R + "::config::ConfiguredHIR::non_matching_bytes")
     ebn = ExprBuilder(nb)
-    an2 = cond_switches(nb, lambda e: e.k == "call" and e[1].endswith("LookSet::contains_anchor_haystack") and
-                        any(x.k == "call" and x[1].endswith("Properties::look_set") for x in walk(e)), ebn)
+    an2, an2_exprs = anchor_tests(facts, nb, ebn)
+    if not all(any(x.k == "call" and x[1].endswith("Properties::look_set") for x in walk(e)) for e in an2_exprs):
+        an2 = []
     rem = [c for c in nb.calls() if c.path.endswith("ByteSet::remove") and
            mentions_call(ebn.operand(c.args[1]), "grep_matcher::LineTerminator::as_bytes", "grep_matcher::LineTerminator::as_byte")]
     if an2 and rem and not guarded(nb, [c.bb for c in rem], an2, True) and \
